@@ -6,6 +6,10 @@ import time
 
 VERIF = os.path.dirname(os.path.dirname(os.path.abspath(__file__)))
 EVIDENCE = os.path.join(VERIF, 'evidence')
+if os.environ.get('KLEPTO_REPO') and os.path.realpath(os.environ['KLEPTO_REPO']) != '/repo':
+    # a run against a scratch copy (seeded changes, experiments) must not overwrite the evidence about /repo
+    EVIDENCE = os.path.join(VERIF, 'scratch', 'evidence-other-tree')
+    os.makedirs(EVIDENCE, exist_ok=True)
 REPLAYS = os.path.join(VERIF, 'replays')
 KNOWN = os.path.join(VERIF, 'known_findings.json')
 BASELINE = os.path.join(VERIF, 'baseline')
